@@ -1,11 +1,49 @@
 import PyresampleModel.Model.Core
 
 /-
-  C17 — model (stub: not built yet).
+  C17 — model of the combinatorial skeleton of `pyresample/spherical.py` (trigonometry is NOT modelled).
+
+  * `SphPolygon.area`: `(sum of the interior angles - (n - 2)·pi)·radius²`, the interior angle at vertex `i+1` being a function of
+    the cyclic triple `(v_i, v_{i+1}, v_{i+2})`                                         → `angleSumFn`, `areaFn`, `areaFromAngles`
+  * `SphPolygon._bool_oper`, branch "no edge crossing found": the decision table          → `dispatch`
+
+  The angle function `ang` and `pi` are parameters; the laws that need geometry appear as hypotheses of the theorems.
 -/
 namespace PyresampleModel.C17
 
+/-- sum over the cyclic triples of `n` vertices `v 0 … v (n-1)` -/
+def angleSumFn {α : Type} (ang : α → α → α → Rat) (n : Nat) (v : Nat → α) : Rat :=
+  ((List.range n).map (fun i => ang (v i) (v ((i + 1) % n)) (v ((i + 2) % n)))).sum
+
+/-- `SphPolygon.area` -/
+def areaFn {α : Type} (ang : α → α → α → Rat) (pi r : Rat) (n : Nat) (v : Nat → α) : Rat :=
+  (angleSumFn ang n v - ((n : Rat) - 2) * pi) * (r * r)
+
+/-- the same from the list of interior angles -/
+def areaFromAngles (pi r : Rat) (angles : List Rat) : Rat :=
+  (angles.sum - ((angles.length : Rat) - 2) * pi) * (r * r)
+
+inductive Pick | self | other | none
+deriving Repr, DecidableEq
+
+/-- `_bool_oper` when no crossing is found: `polys = [0, self, other]`; `sign = 1` union, `-1` intersection -/
+def dispatch (union : Bool) (selfInOther otherInSelf : Bool) : Pick :=
+  if selfInOther then (if union then .other else .self)        -- polys[-sign]
+  else if otherInSelf then (if union then .self else .other)   -- polys[sign]
+  else .none
+
+/-! ### driver -/
+open Wire
+
 def handle : List String → Option String
+  | "area" :: r :: pi :: n :: rest => do
+    let r ← rat? r; let pi ← rat? pi; let n ← nat? n
+    if rest.length ≠ n then none else
+    let a ← rest.mapM rat?
+    some (showRat (areaFromAngles pi r a))
+  | ["dispatch", sign, a, b] => do
+    let sign ← int? sign; let a ← bool? a; let b ← bool? b
+    some (match dispatch (sign == 1) a b with | .self => "self" | .other => "other" | .none => "none")
   | _ => none
 
 end PyresampleModel.C17
